@@ -341,6 +341,66 @@ def check_z_in_message(core, v, level, rec, rng):
         rec.violation('raised:%s' % type(e).__name__, case, {'exc': repr(e)[:200]})
 
 
+def check_moved_segment(core, v, level, rec, rng):
+    """a segment prepared on its own (chain reads, one chain write, read back) and then added to a message that declares
+    other delimiters: a later write at the end of a chain through it creates exactly that chain, split with the message's
+    characters"""
+    ec = gen.delimiter_set(rng, v, with_truncation=False)
+    top = [c.name for c in tables.messages(v)['ADT_A01'].children if c.kind == 'SEG']
+    segs = [s for s in ('PID', 'NK1', 'PV1', 'PD1') if tables.segments(v).get(s) and s in top]
+    seg = segs[rng.randrange(len(segs))]
+    rows = []
+    for r in gen.usable_rows(v, seg):
+        if r.kind == 'sequence':
+            cs = [c for c in tables.components(v, r.datatype) if c.ok and c.card[1] != 0]
+            cx = [c for c in cs if c.kind == 'sequence' and not tables.is_base(v, c.datatype) and
+                  len([x for x in tables.components(v, c.datatype) if x.ok and x.kind == 'leaf' and x.card[1] != 0 and
+                       x.datatype in ('ST', 'ID', 'IS')]) >= 2]
+            lf = [c for c in cs if c.kind == 'leaf' and c.datatype in ('ST', 'ID', 'IS')]
+            if cx and lf:
+                rows.append((r, cx[0], lf[0]))
+    if not rows:
+        rec.count('moved_segment_not_applicable')
+        return
+    row, ccx, clf = rows[rng.randrange(len(rows))]
+    case = {'kind': 'moved-segment', 'version': v, 'level': level, 'segment': seg, 'field': row.name,
+            'ec': {k: x for k, x in ec.items() if k not in ('SEGMENT', 'GROUP')}}
+    rec.evaluation(('moved-segment', v, level, seg, row.name, ccx.name, ''.join(sorted(ec.values()))))
+    try:
+        from .. import structref
+        m = core.Message('ADT_A01', version=v, validation_level=level, encoding_chars=gen.full_ec(ec))
+        m.msh.msh_7 = '20200101'
+        s = core.Segment(seg, version=v, validation_level=level)
+        f = getattr(s, row.name.lower())
+        for _ in range(2):
+            getattr(getattr(f, ccx.name.lower()), tables.components(v, ccx.datatype)[0].name.lower())
+            len(f), repr(f), s.to_er7()
+        setattr(getattr(s, row.name.lower()), clf.name.lower(), 'w1')
+        getattr(s, row.name.lower()).to_er7(), getattr(getattr(s, row.name.lower()), clf.name.lower()).value
+        for e in treeinv.walk(s):
+            e.encoding_chars
+        m.add(s)
+        before = state(m)
+        for _ in range(2):
+            getattr(getattr(getattr(m, seg.lower()), row.name.lower()), ccx.name.lower())
+            m.to_er7()
+        rec.count('read_purity_comparisons')
+        if state(m) != before:
+            rec.violation('read-changed-state', case, {'er7': m.to_er7()[-100:]})
+            return
+        n_before = treeinv.count_nodes([m])
+        text = 'a' + ec['SUBCOMPONENT'] + 'b'
+        setattr(getattr(getattr(m, seg.lower()), row.name.lower()), ccx.name.lower(), text)
+        comp = getattr(getattr(getattr(m, seg.lower()), row.name.lower()), ccx.name.lower())[0]
+        rec.count('moved_segment_write_checks')
+        if len(comp.children.list) != 2 or treeinv.count_nodes([m]) != n_before + 3 or \
+                [c.to_er7() for c in comp.children.list] != ['a', 'b']:
+            rec.violation('write-through-a-moved-segment-created-other-elements', case,
+                          {'component_children': [c.to_er7() for c in comp.children.list], 'er7': m.to_er7()[-80:]})
+    except Exception as e:
+        rec.violation('raised:%s' % type(e).__name__, case, {'exc': repr(e)[:200]})
+
+
 def message_hosts(v):
     """segment -> (structure, group names...) for segments reachable at top level or one/two groups deep,
     through non-ambiguous names"""
@@ -406,6 +466,7 @@ def run_shard(spec, rec):
             for level in (1, 2):
                 for _ in range(12):
                     check_z_in_message(core, v, level, rec, rng)
+                    check_moved_segment(core, v, level, rec, rng)
         if spec['root'] == 'segment':
             for seg in c02.open_ended_segments(v):
                 for level in (1, 2):
@@ -420,6 +481,10 @@ def run_shard(spec, rec):
 def replay(case, rec):
     from hl7apy import core
     v = case['version']
+    if case.get('kind') == 'moved-segment':
+        for k in range(40):
+            check_moved_segment(core, v, case['level'], rec, gen.rng_for(k, 'replay'))
+        return
     if case.get('kind') == 'z-in-message':
         for k in range(40):
             check_z_in_message(core, v, case['level'], rec, gen.rng_for(k, 'replay'))
